@@ -8,7 +8,6 @@ import (
 
 	"github.com/attestantio/go-block-relay/services/blockauctioneer"
 	builderclient "github.com/attestantio/go-builder-client"
-	builderspec "github.com/attestantio/go-builder-client/spec"
 	"github.com/attestantio/go-eth2-client/spec/bellatrix"
 	"github.com/attestantio/go-eth2-client/spec/phase0"
 	"github.com/attestantio/vouch/internal/vnd"
@@ -107,12 +106,12 @@ func (b *c12Bids) BuilderBid(_ context.Context, _ phase0.Slot, _ phase0.Hash32, 
 var c12Fallback = bellatrix.ExecutionAddress{0xfa}
 
 func c12Service(m *c12Majordomo, a *c12Accounts, b *c12Bids) *Service {
-	return &Service{
-		majordomo: m, chainTime: vstub.NewChainTime(0), configURL: "file:///config.json",
-		fallbackFeeRecipient: c12Fallback, fallbackGasLimit: 30000000,
-		validatingAccountsProvider: a, builderBidProvider: b,
-		builderBidsCache: map[string]map[string]*builderspec.VersionedSignedBuilderBid{},
-	}
+	s := relayNew(vstub.NewChainTime(0))
+	s.majordomo, s.validatingAccountsProvider, s.builderBidProvider = m, a, b
+	// never configured so far (the constructor starts from an empty version 2 configuration,
+	// which answers like the fallback; the harnesses say explicitly what was obtained before)
+	s.executionConfig = nil
+	return s
 }
 
 // c12Preload puts a previously obtained configuration in place.
